@@ -47,6 +47,7 @@ structure World where
   dbAcls   : List (Nat × Acl) := []
   /-- C15: after `restart p n` — (store key, n, full listing persisted before the restart) -/
   limited  : List (Nat × Int × List Nat) := []     -- source peer's entry hashes at sync time
+  hadRaw : Bool := false                          -- a validly signed entry with a hand-made payload was delivered in this scenario
   rputFail : List (Nat × Nat) := []              -- per store: injected failures of the `_remoteHeads` Put still to be matched with batches
   partialStores : List Nat := []                  -- stores loaded with a limit below what is persisted (until the next unlimited load)
   /-- C05: per store key, the entries seen listed at rest or acknowledged to their writer: all of
@@ -439,6 +440,11 @@ def World.onObs1 (w : World) (toks : List String) : World :=
       let prop := if w.dbKind == Kind.kv then "C06" else "C07"
       if showKV want != showKV iidx then
         let w := w.fail prop "idx" s!"peer {p}: index {showKV iidx} but replay of its log {showNums iv} gives {showKV want}"
+        -- C12: an entry whose payload is not an operation the view knows changes nothing and stops nothing:
+        -- what is written or merged afterwards must still show
+        let w := if w.hadRaw then
+            w.fail "C12" "view" s!"peer {p}: after an entry with a hand-made payload the view is {showKV iidx}, the replay of the log {showNums iv} is {showKV want}"
+          else w
         -- C17: after concurrent writers have all returned, their writes must be visible in the view
         if w.hadConcurrent then
           w.fail "C17" "visible" s!"peer {p}: after concurrent writes returned the view is {showKV iidx}, the replay of the log {showNums iv} is {showKV want}"
@@ -611,7 +617,7 @@ def World.reloadOtherDbs (w : World) (p : Nat) : World :=
     let w := w.useDb k
     if !(w.stores.any (fun (x : Nat × Store) => x.1 == w.key p)) then w else
     let s := (w.store p).reopened
-    match s.load w.acl w.fetchAll (-1) with
+    match s.loadChecked w.acl w.fetchAll (-1) with
     | .ok s' => { w.setStore p s' with resync := w.key p :: w.resync, lastObs := w.lastObs.filter (·.1 != w.key p) }
     | .error _ => w) w
   w.useDb cur
@@ -619,7 +625,8 @@ def World.reloadOtherDbs (w : World) (p : Nat) : World :=
 def World.onRestarted (w : World) (toks : List String) : World :=
   let p := peerNum (toks.getD 1 "")
   let r := toks.getD 2 ""
-  let amount : Int := match w.pending.getD 2 "" with | "" => -1 | a => parseInt a
+  let cancelled := w.pending.contains "ctx=cancelled"
+  let amount : Int := match w.pending.getD 2 "" with | "" => -1 | a => if a.startsWith "ctx=" then -1 else parseInt a
   let w := if arg toks "identity" != "true" then w.fail "C05" "identity" s!"peer {p} has a different identity after restart" else w
   let w := if w.nDb > 1 then w.reloadOtherDbs p else w
   -- new instance, new replicators: nothing queued, nothing remembered
@@ -636,7 +643,16 @@ def World.onRestarted (w : World) (toks : List String) : World :=
            else { w with mustRecover := w.mustRecover.filter (fun (x : Nat × List Nat) => x.1 != w.key p) }
   -- (what was listed or acknowledged before a LIMITED load stays owed: the next unlimited load must
   -- bring it back, whatever was written or replicated on the partially loaded store in between)
-  match s.load w.acl w.fetchAll amount with
+  -- a Load whose context has already ended cannot have read the persisted log: it must say so
+  -- (F32: it used to report success over an empty log); the store stays opened and unloaded
+  if cancelled && (s.loadChecked w.acl (fun _ => []) amount matches .error _) then
+    let w := { w.setStore p s with limited := w.limited.filter (·.1 != w.key p),
+                                   mustRecover := w.mustRecover.filter (fun (x : Nat × List Nat) => x.1 != w.key p),
+                                   resync := w.key p :: w.resync }
+    if r == "ok" then w.fail "C05" "load" s!"peer {p}: Load under a context that had already ended reported success; {full.length} persisted entries were not loaded"
+    else w
+  else
+  match s.loadChecked w.acl w.fetchAll amount with
   | .ok s' =>
     let w := { w.setStore p s' with resync := w.key p :: w.resync }
     if r != "ok" then w.fail (if amount == -1 then "C05" else "C15") "load" s!"peer {p}: reopening and Load({amount}) failed ({r})" else w
@@ -668,6 +684,7 @@ def World.step (w : World) (line : String) : World :=
     let w := { w with pending := toks.drop 1 }
     let h := toks.getD 1 ""
     let w := if h == "failget" then { w with faulty := true } else if h == "okget" then { w with faulty := false } else w
+    let w := if h == "forge" && (arg? toks "raw").isSome then { w with hadRaw := true } else w
     -- a new instance / a new handle has a new replicator: nothing queued, nothing remembered
     let w := if h == "restartsnap" || h == "reopenstore" || h == "restart" then
         let p := peerNum (toks.getD 2 "")
